@@ -288,6 +288,31 @@ impl Polygon3D {
                 } // end iterating inner loops
             } // end iterating exterior vertices
 
+            // The outline may visit the chosen vertex several times (it
+            // already carries bridges to other holes): attach the new bridge
+            // at the visit whose interior angle contains it, so that the
+            // merged outline does not overlap itself.
+            if n_inner_loops > 1 && inner_vertex_id < self.inner[min_inner_loop_id].len() {
+                let e = ret_loop[min_ext_vertex_id];
+                let d = self.inner[min_inner_loop_id][inner_vertex_id] - e;
+                for j in 0..n_ext_vertices {
+                    if !ret_loop[j].compare(e) {
+                        continue;
+                    }
+                    let a = ret_loop[(j + 1) % n_ext_vertices] - e;
+                    let b = ret_loop[(j + n_ext_vertices - 1) % n_ext_vertices] - e;
+                    let inside = if a.cross(b) * outer_normal >= 0. {
+                        a.cross(d) * outer_normal > 0. && d.cross(b) * outer_normal > 0.
+                    } else {
+                        !(b.cross(d) * outer_normal >= 0. && d.cross(a) * outer_normal >= 0.)
+                    };
+                    if inside {
+                        min_ext_vertex_id = j;
+                        break;
+                    }
+                }
+            }
+
             // Now, pass the inner loop to the exterior loop
             // by connecting them
             let mut aux = Loop3D::new();
